@@ -3,6 +3,8 @@
    F is any field with an involutive automorphism conj (real data: conj = id). *)
 From Coq Require Import String ZArith List Bool Reals.
 From XV Require Import Base.Scalar Base.Sum Base.Mat Base.RInst Model.DecompLib Model.Eof Gen.T3 Gen.T3b Gen.T5eof Proofs.C01_proofs Proofs.C01_order Proofs.C01_ey Proofs.C01_tie.
+From Coquelicot Require Complex.
+From XV Require Base.CInst Proofs.C01_ey_c.
 Import ListNotations.
 
 (* components are orthonormal: V_k^H V_k = I *)
@@ -113,6 +115,27 @@ Theorem C01_eckart_young_full : forall (n p r k : nat) (X U Vt : list (list R)) 
    frob2 OR n p (msub OR n p X (mmul OR n k p A B)))%R.
 Proof. exact eckart_young_full. Qed.
 Print Assumptions C01_eckart_young_full.
+
+(* ... and for complex data (Hermitian case), by realification: a complex matrix of rank at most k has a realification
+   of rank at most 2k, the realified right singular vectors {v_a, i v_a} are real-orthonormal with the squared singular
+   values doubled, and the core of the real proof applies to the doubled data (Proofs/C01_ey_c.v; complex numbers are
+   Coquelicot's C over Coq's reals).  Real parts are compared: both sides are real numbers. *)
+Theorem C01_eckart_young_full_complex : forall (n p r k : nat) (X U Vt : list (list Complex.C)) (s : list Complex.C)
+  (A B : list (list Complex.C)), svd_ok CInst.OCR n p r X (U, s, Vt) ->
+  (forall a, (a < r)%nat -> (0 <= C01_ey_c.sg s a)%R) -> (forall a b, (a <= b)%nat -> (b < r)%nat -> (C01_ey_c.sg s b <= C01_ey_c.sg s a)%R) ->
+  (k <= r)%nat ->
+  (fst (frob2 CInst.OCR n p (msub CInst.OCR n p X (eof_inverse CInst.OCR n p k (eof_fit CInst.OCR n p r k X (U, s, Vt))
+                                                        (e_scores (eof_fit CInst.OCR n p r k X (U, s, Vt)))))) <=
+   fst (frob2 CInst.OCR n p (msub CInst.OCR n p X (mmul CInst.OCR n k p A B))))%R.
+Proof. exact C01_ey_c.eckart_young_complex. Qed.
+Print Assumptions C01_eckart_young_full_complex.
+
+Theorem C01_complex_premises_satisfiable :
+  svd_ok CInst.OCR 2 1 1 [[(0, 3)]; [(4, 0)]]%R ([[(0, 3 / 5)]; [(4 / 5, 0)]]%R, [(5, 0)]%R, [[(1, 0)]]%R) /\
+  (forall a, (a < 1)%nat -> (0 <= C01_ey_c.sg [(5, 0)]%R a)%R) /\
+  (forall a b, (a <= b)%nat -> (b < 1)%nat -> (C01_ey_c.sg [(5, 0)]%R b <= C01_ey_c.sg [(5, 0)]%R a)%R).
+Proof. exact C01_ey_c.c_svd_ok_example. Qed.
+Print Assumptions C01_complex_premises_satisfiable.
 
 (* the model the theorems are about uses the constants and formulas regenerated from the source *)
 Theorem C01_model_matches_source :
